@@ -3,6 +3,7 @@ package props
 import (
 	"fmt"
 	"go/ast"
+	"go/token"
 	"go/types"
 	"strings"
 
@@ -198,13 +199,90 @@ func c16Defaults(p *core.Program, r *core.Report) {
 	want := map[string]int64{"logsinkMaxBufferSize": 64 * 1024, "logsinkMaxWaitTime": 5000, "logsinkZipMinSize": 100, "logsinkQueueSize": 1000}
 	val := map[string]string{} // field -> value text ("const:n", "zero", "?")
 	var exec func(list []ast.Stmt)
-	zeroCfg := func(e ast.Expr) bool { // o.X where o is the fresh option struct
+	// the option struct: the local handed to the option functions inside the loop over the variadic
+	// options (whatever it is called); on the no-options path all of its fields are zero
+	var optObj types.Object
+	ast.Inspect(fi.Decl.Body, func(n ast.Node) bool {
+		rs, ok := n.(*ast.RangeStmt)
+		if !ok {
+			return true
+		}
+		ast.Inspect(rs.Body, func(m ast.Node) bool {
+			if call, ok := m.(*ast.CallExpr); ok {
+				for _, a := range call.Args {
+					if u, isU := ast.Unparen(a).(*ast.UnaryExpr); isU && u.Op == token.AND {
+						a = u.X
+					}
+					if id, ok := ast.Unparen(a).(*ast.Ident); ok && optObj == nil {
+						if _, isVar := info.ObjectOf(id).(*types.Var); isVar {
+							optObj = info.ObjectOf(id)
+						}
+					}
+				}
+			}
+			return true
+		})
+		return true
+	})
+	zeroCfg := func(e ast.Expr) bool { // <opt>.X where <opt> is the fresh option struct
 		sel, ok := ast.Unparen(e).(*ast.SelectorExpr)
 		if !ok {
 			return false
 		}
 		id, ok := ast.Unparen(sel.X).(*ast.Ident)
-		return ok && id.Name == "o"
+		return ok && optObj != nil && info.ObjectOf(id) == optObj
+	}
+	// truth of a condition when every option field is zero: (value, known)
+	var zeroCond func(e ast.Expr) (bool, bool)
+	zeroCond = func(e ast.Expr) (bool, bool) {
+		e = ast.Unparen(e)
+		switch v := e.(type) {
+		case *ast.UnaryExpr:
+			if v.Op == token.NOT {
+				b, ok := zeroCond(v.X)
+				return !b, ok
+			}
+		case *ast.BinaryExpr:
+			switch v.Op {
+			case token.LAND, token.LOR:
+				a, ok1 := zeroCond(v.X)
+				b, ok2 := zeroCond(v.Y)
+				if v.Op == token.LAND {
+					if (ok1 && !a) || (ok2 && !b) {
+						return false, true
+					}
+					return a && b, ok1 && ok2
+				}
+				if (ok1 && a) || (ok2 && b) {
+					return true, true
+				}
+				return a || b, ok1 && ok2
+			case token.EQL, token.NEQ, token.LSS, token.LEQ, token.GTR, token.GEQ:
+				x, y, op := v.X, v.Y, v.Op
+				if !zeroCfg(x) && zeroCfg(y) {
+					x, y, op = y, x, flipOp(op)
+				}
+				if zeroCfg(x) {
+					if k, ok := constIntOf(info, y); ok {
+						switch op {
+						case token.EQL:
+							return 0 == k, true
+						case token.NEQ:
+							return 0 != k, true
+						case token.LSS:
+							return 0 < k, true
+						case token.LEQ:
+							return 0 <= k, true
+						case token.GTR:
+							return 0 > k, true
+						case token.GEQ:
+							return 0 >= k, true
+						}
+					}
+				}
+			}
+		}
+		return false, false
 	}
 	exec = func(list []ast.Stmt) {
 		for _, s := range list {
@@ -227,22 +305,24 @@ func c16Defaults(p *core.Program, r *core.Report) {
 					}
 				}
 			case *ast.IfStmt:
-				// conditions over the zero option struct
-				cs := stripSpaces(types.ExprString(v.Cond))
-				switch {
-				case strings.HasPrefix(cs, "o.") && (strings.HasSuffix(cs, ">0") || strings.HasSuffix(cs, "!=0")):
-					if v.Else != nil {
-						if b, ok := v.Else.(*ast.BlockStmt); ok {
-							exec(b.List)
+				// conditions over the zero option struct are decided; others may go either way
+				if b, known := zeroCond(v.Cond); known {
+					if b {
+						exec(v.Body.List)
+					} else if v.Else != nil {
+						if blk, ok := v.Else.(*ast.BlockStmt); ok {
+							exec(blk.List)
+						} else {
+							exec([]ast.Stmt{v.Else})
 						}
 					}
-				case strings.HasPrefix(cs, "o.") && (strings.HasSuffix(cs, "==0") || strings.HasSuffix(cs, "<=0")):
-					exec(v.Body.List)
-				default:
+				} else {
 					// unrelated condition: both arms may run; only tracked-field assignments matter
 					exec(v.Body.List)
-					if b, ok := v.Else.(*ast.BlockStmt); ok {
-						exec(b.List)
+					if blk, ok := v.Else.(*ast.BlockStmt); ok {
+						exec(blk.List)
+					} else if v.Else != nil {
+						exec([]ast.Stmt{v.Else})
 					}
 				}
 			case *ast.RangeStmt:
